@@ -210,6 +210,10 @@ where
             self.inner.compile(&inp)
         };
         let log = log.into_inner();
+        if std::env::var("VH_TRACE").is_ok() {
+            eprintln!("COMPILE {:?} root={:?} depth={} value={} w={} best_lb={} -> {:?} is_exact={} best={:?} best_exact={:?}", input.comp_type, input.residual.state, input.residual.depth, input.residual.value, input.max_width, input.best_lb, res.as_ref().map(|c| (c.is_exact, c.best_value)).ok(), self.inner.is_exact(), self.inner.best_value(), self.inner.best_exact_value());
+            for e in &log { match e { Ev::NextVar { depth, layer, var } => eprintln!("  layer depth={depth} var={var:?} states={layer:?}"), Ev::Cost { src, dst, dec, cost } => eprintln!("    arc {src:?} --{}={}--> {dst:?} cost {cost}", dec.variable.0, dec.value), Ev::Merge { inputs, merged } => eprintln!("    merge {inputs:?} -> {merged:?}"), Ev::Rub { state, rub } => eprintln!("    rub {state:?} = {rub}"), _ => {} } }
+        }
         self.info = None;
         let ct = input.comp_type;
         ctx.bump(match ct { CompilationType::Exact => "compile_exact", CompilationType::Relaxed => "compile_relaxed", CompilationType::Restricted => "compile_restricted" }, 1);
